@@ -213,6 +213,16 @@ for bad in ['0', '65536', '70000', '-1']:
         kind, ac = run(args)
         if kind == 'ok' and len(failures) < 8:
             failures.append({'input': {'argv': args, 'case': 'bad port'}, 'got': repr((ac.host, ac.port)), 'want': 'rejection'})
+# IP-version options: the families requested, in the order requested (-4, -6, -46, -64, and the separate spellings), reach the configuration
+for args, want_pref in ((['-4'], [4]), (['-6'], [6]), (['-46'], [4, 6]), (['-64'], [6, 4]), (['-4', '-6'], [4, 6]), (['-6', '-4'], [6, 4]), (['--ipv4'], [4]), (['--ipv6'], [6]),
+                        (['--ipv6', '--ipv4'], [6, 4]), ([], [])):
+    cases += 1
+    kind, ac = run(args + ['example.com'])
+    got = list(ac.ip_version_preference) if kind == 'ok' else (kind, ac)
+    if got != want_pref and len(failures) < 8:
+        failures.append({'input': {'argv': args + ['example.com'], 'case': 'ip-version option'}, 'got': repr(got), 'want': repr(want_pref)})
+    if kind == 'ok' and (ac.ipv4, ac.ipv6) != (4 in want_pref, 6 in want_pref) and len(failures) < 8:
+        failures.append({'input': {'argv': args + ['example.com'], 'case': 'ip-version flags'}, 'got': repr((ac.ipv4, ac.ipv6)), 'want': repr((4 in want_pref, 6 in want_pref))})
 # targets files: one target per line, blank / whitespace-only lines skipped, -p as default port
 def targets(lines, extra, want):
     global cases
